@@ -25,7 +25,7 @@ Pers(r) == r.scn.persistent = "T"
 
 OkShape(r, d) == /\ d.has_error = "F" /\ d.error = "None"
                  /\ IF Pers(r) THEN d.result = "count" /\ d.result_n <= r.scn.items
-                    ELSE d.result = "own" /\ r.scn.ending \in {"ret", "big"}
+                    ELSE d.result = "own" /\ r.scn.ending \in {"ret", "big", "badret"}
 ErrShape(r, d) == /\ d.has_error = "T" /\ d.result = "None"
                   /\ d.error \in {"None", "WTE", "own"}
                   /\ (d.error = "own" => r.scn.ending \in {"exc", "bexc", "unreb"})
@@ -45,7 +45,11 @@ C01_Stable(r) == Dead(r) => \A k \in 1..NReads(r) : Rd(r, k) = Rd(r, 1)
 \* a worker that ended on its own, undisturbed, reports its own outcome (ties C01's "the value the work returned")
 C01_Undisturbed(r) == (Dead(r) /\ r.scn.landed = "F" /\ NReads(r) >= 1) =>
                          IF r.scn.ending \in {"ret", "big"} THEN OkShape(r, Rd(r, 1))
+                         \* a value that cannot be rebuilt in the parent: same memory for a thread, not transferable otherwise
+                         ELSE IF r.scn.ending = "badret" THEN (IF r.scn.kind = "thread" THEN OkShape(r, Rd(r, 1)) ELSE Rd(r, 1).has_error = "T")
                          ELSE IF r.scn.ending = "exc" THEN Rd(r, 1).has_error = "T" /\ Rd(r, 1).error = "own"
+                         \* a thread shares memory with its parent: whatever ended it can be reported
+                         ELSE IF r.scn.kind = "thread" THEN Rd(r, 1).has_error = "T" /\ Rd(r, 1).error = "own"
                          ELSE Rd(r, 1).has_error = "T"
 
 \* ---------------- C03 (records with fault = "pause" that landed) ----------------
@@ -65,8 +69,9 @@ C06_Ends(r) == (Pers(r) /\ Dead(r)) => r.obs.stream.end = "ended" /\ r.obs.strea
 C06_All(r) == (Pers(r) /\ Dead(r) /\ r.scn.landed = "F" /\ r.scn.ending = "ret") => r.obs.stream.got = Expected(r)
 
 \* ---------------- C16 ----------------
+\* "ended in any way that lets it report (return, exception, graceful terminate)"
 CanReport(r) == \/ r.scn.landed = "F" /\ r.scn.ending \in {"ret", "exc"}
-                \/ Landed(r) /\ r.scn.in_target = "T"
+                \/ Landed(r)
 C16_SyncedAtEnd(r) == (Dead(r) /\ CanReport(r)) => r.obs.us_end = "last"
 \* while the work is still in progress in the child (its do_work frame is on the stack)
 C16_InitialWhileAlive(r) == (r.scn.kind \in {"process", "remote"} /\ r.scn.in_work = "T") => r.obs.us_alive \in {"init", "na"}
